@@ -107,6 +107,11 @@ class StreamCounter:
 
     def check(self) -> None:
         self.on_event({})
+        if not self.su.pool._discipline.mutations:
+            # the guard on the pool's lists never engaged (attributes renamed?):
+            # connections being closed cannot be told apart, so no verdict
+            P.cover("stream-counter-inactive")
+            return
         P.check(self.max_open <= self.N, "open-streams<=max_connections(apart from evicted ones being closed)",
                 f"{self.sig}:streams>{self.N}", prop="C04")
-        P.check(len(self.su.pool._connections) <= self.N, "pooled-connections<=max_connections", f"{self.sig}:pooled>{self.N}", prop="C04")
+        P.check(len(self.su.pool.connections) <= self.N, "pooled-connections<=max_connections", f"{self.sig}:pooled>{self.N}", prop="C04")
